@@ -453,6 +453,8 @@ type fJSON struct {
 	Scheme  string  `json:"scheme"`
 	URLHost string  `json:"urlhost"`
 	Out     string  `json:"observed,omitempty"`
+	// calls made on the same proxy instance before this one (kind, scheme, urlhost): a replay repeats them first
+	Before [][3]string `json:"calls_before,omitempty"`
 }
 
 // consistent reports whether the oracle calls the implementation made were about this request's host
@@ -795,8 +797,18 @@ func runJob(w *world, jb job) jobResult {
 		return res
 	}
 	defer rg.close()
+	var before [][3]string
 	for _, f := range jb.f {
+		if len(f.Before) > 0 && len(before) == 0 { // replay: repeat the recorded history first
+			for _, b := range f.Before {
+				rg.proxyURL(int(b[0][0]-'0'), b[1], b[2])
+			}
+		}
 		c, out := fCase(rg, f.ReqKind, f.Scheme, f.URLHost)
+		if len(f.Before) == 0 {
+			f.Before = append([][3]string(nil), before...)
+		}
+		before = append(before, [3]string{fmt.Sprint(f.ReqKind), f.Scheme, f.URLHost})
 		f.Out = out
 		res.fc = append(res.fc, c)
 		res.fj = append(res.fj, f)
